@@ -89,10 +89,10 @@ def plan(tier, irpath):
         for excl, mols in ((0, list(range(n))), (1, [0] * (n - 1) + [1])):
             tasks.append(dict(base, grid=0, n=n, L=['5/2', '5/2', '5/2'], N=[1, 1, 1], cells={}, mols=mols, excl=excl, label='simple search, %d beads%s, cubic box 2.5, cutoff 1' % (n, ', beads 0..%d in one molecule and mutually excluded' % (n - 2) if excl else '')))
     # grid search: bead 0 confined to one grid cell of the primary image, bead 1 anywhere in the 3x3x3 images around it
-    grids = [(['5/2', '5/2', '5/2'], [2, 2, 2]), (['5/2', '9/2', '2'], [2, 4, 2])]
+    grids = [(['5/2', '5/2', '5/2'], [2, 2, 2]), (['5/2', '9/2', '2'], [2, 4, 2])] + ([] if quick else [(['7/2', '7/2', '7/2'], [3, 3, 3])])
     for L, N in grids:
         cells = list(itertools.product(*[range(k) for k in N]))
-        pick = [cells[0], cells[-1]] if quick else cells
+        pick = [cells[0], cells[-1]] if quick else (cells if len(cells) <= 16 else [cells[0], cells[13], cells[-1]])
         for cA in pick:
             tasks.append(dict(base, grid=1, n=2, L=L, N=N, cells={'0': list(cA)}, mols=[0, 1], excl=0, label='grid search, %dx%dx%d cells (box %s, cutoff 1), bead 0 in cell %s, bead 1 anywhere within one box length around the box' % (N[0], N[1], N[2], 'x'.join(L), list(cA))))
     tasks.append(dict(base, grid=1, n=2, L=['5/2', '5/2', '5/2'], N=[2, 2, 2], cells={'0': [0, 0, 0]}, mols=[0, 0], excl=1, label='grid search, 2x2x2 cells, both beads in one molecule and excluded'))
@@ -307,3 +307,72 @@ def replay_native(meta):
             exp = dist < c and not (t['excl'] and t['mols'][i] == t['mols'][j]); cnt = sum(1 for pq in pairs if set(pq) == {i, j})
             if cnt != (1 if exp else 0): bad.append('pair (%d,%d): minimum-image distance %.6g, cutoff %g, delivered %d time(s)' % (i, j, dist, c, cnt))
     return bool(bad), 'native %s search, positions %s: %s' % ('grid' if t['grid'] else 'simple', pos, '; '.join(bad) if bad else 'as expected')
+
+# ---------------------------------------------------------------- bead selection by type / "name:" pattern (used by C18)
+def check_selection(ck, tier, found):
+    """BeadList::Generate(top, select): with the selection string's bytes symbolic.  The glob matcher itself is decided bit-precisely
+    in C18/E1; here it is a contract stub (arguments recorded, result a fresh boolean), and the obligation is that Generate asks
+    it exactly (select, bead type) -- or (select without the 'name:' prefix, bead name) -- and keeps exactly the beads it accepts."""
+    ir, dt = common.compile_ir(common.harness_path(HARNESS), extra=['-I' + common.REPO]); mod = llir.parse_module(ir); parsed = {}
+    ck.units += ['csg/src/libcsg/beadlist.cc (Generate)']
+    L = 8 if tier == 'quick' else 10
+    name0, name1 = b'1:RES:CA', b'CB'
+    for prefix in (b'name:', b''):
+        nsym = L - len(prefix)
+        sb = [z3.Int('c%d' % i) for i in range(nsym)]
+        calls = []
+        def m_wild(it, a):
+            pat = bytes_or_sym(it, a[0]); st = bytes_or_sym(it, a[1]); r = z3.Bool('w%d' % len(calls)); calls.append((pat, st, r))
+            return z3.If(r, z3.IntVal(1), z3.IntVal(0))
+        def bytes_or_sym(it, sp): return models.sget(it, sp)
+        M = models.all_models(); names = [n for n in list(mod.funcs) + list(mod.decls) if 'verif_wildcmp_hook' in n]
+        for nm in names: M[nm] = m_wild
+        def body(it):
+            del calls[:]
+            for c in sb: it.assume(z3.And(c >= 33, c <= 126))       # printable, no blank
+            if not prefix: it.assume(z3.Not(z3.And([sb[i] == ch for i, ch in enumerate(b'name:')])))
+            buf = it.alloc(L + 1, 'select')
+            for i, ch in enumerate(prefix): it.store(Ptr(buf.obj, i), ch, 1)
+            for i, c in enumerate(sb): it.store(Ptr(buf.obj, len(prefix) + i), c, 1)
+            it.store(Ptr(buf.obj, L), 0, 1)
+            n0 = it.alloc(len(name0) + 1, 'n0'); n1 = it.alloc(len(name1) + 1, 'n1')
+            for i, ch in enumerate(name0 + b'\0'): it.store(Ptr(n0.obj, i), ch, 1)
+            for i, ch in enumerate(name1 + b'\0'): it.store(Ptr(n1.obj, i), ch, 1)
+            ty = alloc_i64(it, 'types', [65, 66]); sel = it.alloc(16, 'sel')
+            k = it.call('@h_select', [buf, ty, n0, n1, sel])
+            return k, [it.load(Ptr(sel.obj, 8 * i), 8) for i in range(2)], list(calls)
+        if not names: ck.inconc('bead selection: the forwarding hook of the glob matcher was not found in the module'); return
+        res, st = explore(mod, M, body, parsed=parsed, max_paths=2000, timeout=600); ck.stubs |= st['models_used'] | {'tools::wildcmp(string,string) -> contract stub (decided bit-precisely in the E1 part of C18)'}
+        ck.add_witness('bead selection (%s): %d paths' % ('name: prefix' if prefix else 'type selection', len(res)), len(res) >= 1)
+        q = []
+        for it, (k, sel, cl) in res:
+            pc = list(it.pc); goal = []
+            if len(cl) != 2: q.append((pc, [z3.BoolVal(True)])); continue
+            exp_pat = list(sb) if prefix else list(sb)
+            for i, (pat, st_, r) in enumerate(cl):
+                target = (name0, name1)[i] if prefix else (b'A', b'B')[i]
+                goal.append(z3.BoolVal(len(pat) == nsym and [x & 0xff if not is_sym(x) else None for x in st_] == list(target)))
+                if len(pat) == nsym: goal += [(x if is_sym(x) else z3.IntVal(x & 0xff)) == sb[j] for j, x in enumerate(pat)]
+                s_i = sel[i] if is_sym(sel[i]) else z3.IntVal(sgn64(sel[i]))
+                goal.append(s_i == z3.If(r, 1, 0))
+            q.append((pc, [z3.Not(z3.And(goal))]))
+        name = 'BeadList::Generate with a %d-character selection %s: the glob matcher is asked exactly (%s, bead %s) for every bead and exactly the accepted beads are listed, once' % (L, '"name:" + %d arbitrary printable characters' % nsym if prefix else 'of arbitrary printable characters not starting with "name:"', 'the text after the prefix' if prefix else 'the whole selection', 'name' if prefix else 'type')
+        s_, mdl = smt.agg_core(ck, name, q, 60)
+        if s_ == 'sat': found.append(('selection', name, {'task': {'label': 'bead selection', 'kind': 'select', 'prefix': prefix.decode(), 'n': nsym, 'names': [name0.decode(), name1.decode()]}, 'model': mdl}))
+
+def replay_selection(meta):
+    binp = common.native_build([common.harness_path(HARNESS)], 'C03p_native', extra=['-I' + common.REPO], defs=['VERIF_NATIVE'], libs=['-lexpat'])
+    t = meta['task']; m = meta.get('model') or {}
+    sel = t['prefix'] + ''.join(chr(int(str(m.get('c%d' % i, 42)))) for i in range(t['n']))
+    rc, so, se = common.run_native(binp, args=['select', sel, '65', '66'] + t['names'])
+    line = [l for l in so.split('\n') if l.startswith('RESULT')]
+    if not line: return True, 'native run gave no result'
+    v = [int(x) for x in line[0].split()[1:]]
+    import fnmatch
+    def glob(p, s_):
+        # '*' any run, '?' one character, everything else literal (the semantics of tools::wildcmp)
+        import re
+        return re.fullmatch(''.join('.*' if c == '*' else ('.' if c == '?' else re.escape(c)) for c in p), s_, re.S) is not None
+    pat = sel[5:] if sel.startswith('name:') else sel; targets = t['names'] if sel.startswith('name:') else ['A', 'B']
+    exp = [1 if glob(pat, x) else 0 for x in targets]
+    return v[1:3] != exp, 'native BeadList::Generate(%r) on beads named %s / typed A,B selects %s, glob semantics give %s' % (sel, t['names'], v[1:3], exp)
